@@ -15,6 +15,8 @@ import sys
 sys.dont_write_bytecode = True
 import time
 
+sys.path.insert(0, os.path.dirname(os.path.abspath(__file__)))
+
 P = 2 ** 255 - 19
 L = 2 ** 252 + 27742317777372353535851937790883648493
 
@@ -886,6 +888,8 @@ def main(argv=None):
     ap.add_argument('--n', type=int, default=2000)
     ap.add_argument('--seed', type=int, default=1)
     ap.add_argument('--only', default='')
+    ap.add_argument('--no-alg', action='store_true', help='skip the AlgIR items')
+    ap.add_argument('--n-alg', type=int, default=600, help='random inputs per AlgIR item')
     args = ap.parse_args(argv)
     only = set(x for x in args.only.split(',') if x)
     t0 = time.time()
@@ -925,6 +929,11 @@ def main(argv=None):
         fails += len(errs)
         if not errs:
             print('constants sanity checks: ok')
+    if not args.no_alg:
+        import selfcheck_alg
+        print('--- AlgIR items (interpreted mod p against independent formulas)')
+        print('%-44s %5s %5s %6s %7s  %s' % ('item', 'n_in', 'n_out', 'stmts', 'inputs', 'result'))
+        fails += selfcheck_alg.run_alg(args.gen, args.n_alg, args.seed, only)
     print('selfcheck: %s (%d failing), %.1f s' % ('PASS' if fails == 0 else 'FAIL', fails, time.time() - t0))
     return 0 if fails == 0 else 1
 
